@@ -55,7 +55,7 @@ func (g *Generator) generateFieldExamplesStorage(gf *protogen.GeneratedFile, fil
 
 	// Collect all field examples from all messages
 	for _, message := range file.Messages {
-		g.collectMessageFieldExamples(gf, message, "")
+		g.collectMessageFieldExamples(gf, message)
 	}
 
 	gf.P("}")
@@ -65,8 +65,8 @@ func (g *Generator) generateFieldExamplesStorage(gf *protogen.GeneratedFile, fil
 }
 
 // collectMessageFieldExamples recursively collects field examples.
-func (g *Generator) collectMessageFieldExamples(gf *protogen.GeneratedFile, message *protogen.Message, prefix string) {
-	messagePath := prefix + string(message.Desc.Name())
+func (g *Generator) collectMessageFieldExamples(gf *protogen.GeneratedFile, message *protogen.Message) {
+	messagePath := mockMessagePath(message)
 
 	for _, field := range message.Fields {
 		examples := annotations.GetFieldExamples(field)
@@ -83,7 +83,7 @@ func (g *Generator) collectMessageFieldExamples(gf *protogen.GeneratedFile, mess
 
 	// Process nested messages
 	for _, nested := range message.Messages {
-		g.collectMessageFieldExamples(gf, nested, messagePath+".")
+		g.collectMessageFieldExamples(gf, nested)
 	}
 }
 
@@ -182,31 +182,39 @@ func (g *Generator) generateMockFieldAssignments(
 	visiting[key] = true
 	defer delete(visiting, key)
 
-	messageName := string(message.Desc.Name())
+	// The same key spelling as the fieldExamples table (collectMessageFieldExamples).
+	messagePath := mockMessagePath(message)
 
 	for _, field := range message.Fields {
 		fieldName := field.GoName
-		fieldPath := messageName + "." + string(field.Desc.Name())
+		fieldPath := messagePath + "." + string(field.Desc.Name())
+
+		// Members of a real oneof have no struct field of their own (only a wrapper type).
+		if field.Oneof != nil && !field.Oneof.Desc.IsSynthetic() {
+			gf.P("// TODO: Handle oneof member ", fieldName)
+			continue
+		}
 
 		// Generate assignment based on field type
 		switch field.Desc.Kind() {
 		case protoreflect.StringKind:
-			gf.P(
-				varName,
-				".",
-				fieldName,
-				" = selectStringExample(\"",
-				fieldPath,
-				"\", ",
-				g.getDefaultGenerator(field),
-				")",
-			)
-		case protoreflect.Int32Kind, protoreflect.Int64Kind:
-			gf.P(varName, ".", fieldName, " = selectIntExample(\"", fieldPath, "\", ", g.getDefaultValue(field), ")")
+			g.assignMockScalar(gf, field, varName, "String", "",
+				"selectStringExample(\""+fieldPath+"\", "+g.getDefaultGenerator(field)+")")
+		case protoreflect.Int32Kind:
+			g.assignMockScalar(gf, field, varName, "Int32", "int32",
+				"selectIntExample(\""+fieldPath+"\", "+g.getDefaultValue(field)+")")
+		case protoreflect.Int64Kind:
+			g.assignMockScalar(gf, field, varName, "Int64", "",
+				"selectIntExample(\""+fieldPath+"\", "+g.getDefaultValue(field)+")")
 		case protoreflect.BoolKind:
-			gf.P(varName, ".", fieldName, " = selectBoolExample(\"", fieldPath, "\", ", g.getDefaultValue(field), ")")
-		case protoreflect.FloatKind, protoreflect.DoubleKind:
-			gf.P(varName, ".", fieldName, " = selectFloatExample(\"", fieldPath, "\", ", g.getDefaultValue(field), ")")
+			g.assignMockScalar(gf, field, varName, "Bool", "",
+				"selectBoolExample(\""+fieldPath+"\", "+g.getDefaultValue(field)+")")
+		case protoreflect.FloatKind:
+			g.assignMockScalar(gf, field, varName, "Float32", "float32",
+				"selectFloatExample(\""+fieldPath+"\", "+g.getDefaultValue(field)+")")
+		case protoreflect.DoubleKind:
+			g.assignMockScalar(gf, field, varName, "Float64", "",
+				"selectFloatExample(\""+fieldPath+"\", "+g.getDefaultValue(field)+")")
 		case protoreflect.MessageKind:
 			switch {
 			case field.Desc.IsMap():
@@ -234,6 +242,38 @@ func (g *Generator) generateMockFieldAssignments(
 			gf.P("// TODO: Handle field ", fieldName, " of type ", field.Desc.Kind())
 		}
 	}
+}
+
+// assignMockScalar emits the assignment of a selected example to a scalar field. The
+// selectors return int64/float64/bool/string: 32-bit kinds need a conversion, proto3
+// optional fields a pointer (proto.<Ctor>) and repeated fields a one-element slice.
+func (g *Generator) assignMockScalar(
+	gf *protogen.GeneratedFile,
+	field *protogen.Field,
+	varName, protoCtor, conversion, expr string,
+) {
+	if conversion != "" {
+		expr = conversion + "(" + expr + ")"
+	}
+	target := varName + "." + field.GoName
+	switch {
+	case field.Desc.IsList():
+		gf.P(target, " = []", g.getGoTypeScalar(field), "{", expr, "}")
+	case field.Desc.HasOptionalKeyword():
+		gf.P(target, " = proto.", protoCtor, "(", expr, ")")
+	default:
+		gf.P(target, " = ", expr)
+	}
+}
+
+// mockMessagePath spells a message as its full name without the package ("Outer.Inner"):
+// the key prefix shared by the fieldExamples table and the example selectors.
+func mockMessagePath(message *protogen.Message) string {
+	full := string(message.Desc.FullName())
+	if pkg := string(message.Desc.ParentFile().Package()); pkg != "" {
+		full = strings.TrimPrefix(full, pkg+".")
+	}
+	return full
 }
 
 // generateMockMapFieldAssignment generates code to populate a map field with sample data.
